@@ -8,7 +8,8 @@
    properties used by the final-sigma rule of str.lower) is a Section variable; in the correspondence
    run the variables are instantiated by finite tables produced by Python's own str methods.
 
-   Defects of the unchanged tree are transcribed as they are (F20a-F20h); guards at the end.
+   Open defects are transcribed as they are (F20d digit-leading tag names, F20h non-identifier word characters);
+   guards at the end.
    No proofs in this file. *)
 From PG Require Import Lib.Strs Gen.Tables Gen.T_C20.
 
@@ -113,7 +114,7 @@ Definition class_name (s : str) : str :=
   let c1 := match c0 with [] => s_unnamed_class | _ => c0 end in
   let c2 := if starts_digit c1 then 95 :: c1 else c1 in
   let low := map lower_ascii c2 in
-  if is_kw low || is_reserved low then c2 ++ [95] else c2.
+  if is_kw c2 || is_kw low || is_reserved low then c2 ++ [95] else c2.
 
 (* ---------- sanitize_method_name ---------- *)
 Definition is_brace (c : N) : bool := (c =? 123) || (c =? 125).
@@ -156,13 +157,14 @@ Definition finish_snake (m : str) : str :=
   let m1 := if starts_digit m then 95 :: m else m in
   if is_kw m1 || is_reserved m1 then m1 ++ [95] else m1.
 
-Definition method_name (s : str) : str := finish_snake (method_core s).
+(* `if not name: name = "unnamed"` — the empty-name fallback shared by the snake-case sanitisers *)
+Definition or_unnamed (m : str) : str := match m with [] => s_unnamed | _ => m end.
+Definition method_name (s : str) : str := finish_snake (or_unnamed (method_core s)).
 
 (* ---------- is_valid_python_identifier ----------
-   re.match(r"^[a-zA-Z_][a-zA-Z0-9_]*$", name): "$" also matches before a final "\n" (F20i) *)
+   non-empty, not a keyword, re.fullmatch(r"[a-zA-Z_][a-zA-Z0-9_]*", name) *)
 Definition is_valid_python_identifier (s : str) : bool :=
-  nonempty s && negb (is_kw s) &&
-  (is_ident s || match rev s with 10 :: r => is_ident (rev r) | _ => false end).
+  nonempty s && negb (is_kw s) && is_ident s.
 
 (* ---------- _to_module_name (python_construct_renderer.py) ----------
    s1 = re.sub("(.)([A-Z][a-z]+)", r"\1_\2", name); s2 = re.sub("([a-z0-9])([A-Z])", r"\1_\2", s1); s2.lower()
@@ -186,7 +188,7 @@ Definition to_module_name_ascii (s : str) : str :=
 (* ---------- sanitize_module_name, main path (findall found at least one token) ----------
    tokens are ASCII, so word.lower() and module[0].isdigit() are the ASCII functions *)
 Definition module_of_tokens (ws : list str) : str :=
-  finish_snake (join [95] (map (map lower_ascii) (filter nonempty ws))).
+  finish_snake (or_unnamed (join [95] (map (map lower_ascii) (filter nonempty ws)))).
 Definition module_name_tok (s : str) : str := module_of_tokens (tokens s).
 
 (* ---------- enum member names: the common tail of both namers ----------
@@ -252,7 +254,7 @@ Section Oracles.
     | [] =>
         (* fallback re.split(r"\W+", name): only underscores and non-ASCII word characters can survive *)
         let words := split_on (fun c => negb (word c)) s in
-        let m := join [95] (map py_lower (filter nonempty words)) in
+        let m := or_unnamed (join [95] (map py_lower (filter nonempty words))) in
         let m1 := match m with c :: _ => if isdigit1 c then 95 :: m else m | [] => m end in
         if is_kw m1 || is_reserved m1 then m1 ++ [95] else m1
     | ws => module_of_tokens ws
@@ -269,7 +271,9 @@ Section Oracles.
     | c :: r => if word c then c :: sub_nonword false r
                 else if insep then sub_nonword true r else 95 :: sub_nonword true r
     end.
-  Definition tag_attr_name (s : str) : str := strip_us (py_lower (sub_nonword false s)).
+  Definition tag_attr_name (s : str) : str :=
+    let a := or_unnamed (strip_us (py_lower (sub_nonword false s))) in
+    if is_kw a then a ++ [95] else a.
 
   (* ---------- normalize_tag_key : re.sub(r"[\W_]+", "", tag).lower() ---------- *)
   Definition normalize_tag_key (s : str) : str :=
@@ -310,14 +314,9 @@ Section Oracles.
 End Oracles.
 
 (* ================================================================= guards (executable) *)
-(* F20a: keywords that are not all lower-case ("None", "True", "False") escape the lower-cased keyword test *)
-Definition cap_keywords : list str := filter (fun k => negb (mem_str (map lower_ascii k) keywords)) keywords.
-Definition guard_F20a (s : str) : bool := negb (mem_str (class_name s) cap_keywords).
-(* F20b/c/d: a name without any ASCII letter or digit gives the empty method / module / attribute name
-   (module and tag names: or a non-ASCII name that need not be an identifier) *)
+(* fixed: F20a (None/True/False), F20b/F20c (empty names), F20g (keyword tag attribute), F20i (trailing newline).
+   has_alnum is kept as a helper: with an ASCII letter or digit no Unicode oracle is ever consulted. *)
 Definition has_alnum (s : str) : bool := existsb is_alnum s.
 (* F20d: the tag sanitisers have no digit prefix: the first ASCII letter-or-digit must not be a digit *)
 Definition first_alnum_not_digit (s : str) : bool :=
   negb (starts_digit (dropwhile (fun c => negb (is_alnum c)) s)).
-(* F20i: is_valid_python_identifier accepts one trailing line feed *)
-Definition no_trailing_lf (s : str) : bool := negb (match rev s with c :: _ => c =? 10 | [] => false end).
